@@ -710,3 +710,60 @@ def basis_state_qn(spec):
         sq = site_sigmaqn(spec, i)
         out = (out[:, None, :] + sq[None, :, :]).reshape(-1, qs)
     return out
+
+
+# ------------------------------------------------------------------------------------------------
+# Hermitian Hamiltonians with a dense reference
+# ------------------------------------------------------------------------------------------------
+
+_ADJ = {"+": "-", "-": "+", "sigma_+": "sigma_-", "sigma_-": "sigma_+", "a": r"a^\dagger", r"a^\dagger": "a",
+        "b": r"b^\dagger", r"b^\dagger": "b"}
+_SELF_ADJ = {"I", "X", "Y", "Z", "x", "y", "z", "sigma_x", "sigma_y", "sigma_z", "n", "p", "x^2", "x^3", "x^4", "p^2", "p^3",
+             "dx^2", r"b^\dagger+b"}
+_ANTI = {"iY", "iy", "isigma_y", "dx"}
+
+
+def dagger_term(term):
+    """term spec of the Hermitian conjugate; returns None when some word has no adjoint in the menus."""
+    ops = []
+    sign = 1.0
+    for site, sym, ldofs in reversed(term["ops"]):
+        words = sym.replace(r"b^\dagger + b", r"b^\dagger+b").split(" ")
+        ld = list(ldofs) if len(ldofs) else [0] * len(words)
+        nw = []
+        for w in reversed(words):
+            if w in _ADJ:
+                nw.append(_ADJ[w])
+            elif w in _SELF_ADJ:
+                nw.append(w)
+            elif w in _ANTI:
+                nw.append(w)
+                sign = -sign
+            else:
+                return None
+        ld = list(reversed(ld))
+        sym2 = " ".join(nw).replace(r"b^\dagger+b", r"b^\dagger + b")
+        ops.append([site, sym2, ld if len(ldofs) else []])
+    return {"f": [sign * term["f"][0], -sign * term["f"][1]], "ops": ops}
+
+
+@st.composite
+def hermitian_hamiltonian(draw, spec, max_terms=5, real_only=False):
+    """charge-neutral terms t plus their adjoints: H = sum (t + t^dagger) is Hermitian by construction."""
+    terms, q = draw(charged_operator(spec, charge=tuple([0] * qn_size(spec)), max_terms=max_terms, real_only=real_only))
+    out = []
+    for t in terms:
+        d = dagger_term(t)
+        if d is None:
+            continue
+        out.append(t)
+        out.append(d)
+    if not out:
+        # always available: a diagonal term
+        i = draw(st.integers(0, len(spec["sites"]) - 1))
+        blocks = [p for p, qq in site_blocks(spec, i, real_only) if not any(qq)]
+        p = blocks[0]
+        t = {"f": [1.0, 0.0], "ops": [list(x) for x in p]}
+        d = dagger_term(t)
+        out = [t, d] if d is not None else [{"f": [1.0, 0.0], "ops": [[i, "I", [0] if spec["sites"][i]["k"] in ("multi", "mvac") else []]]}]
+    return out
